@@ -16,7 +16,7 @@ RULE = ('E1 exhaustive: every stack of <= d IMPLICIT/EXPLICIT taggings (quick d=
         '{context, application, private} x numbers {0,30,31,127,128,16383,16384,2^32}, inner level context x '
         '{0,31,128,2^32}; thorough d=3) over every base type (all leaf kinds, SEQUENCE, SEQUENCE OF, SET, SET OF, '
         'CHOICE) plus ANY under explicit tags. Per type: (1) the tag algebra of the built pyasn1 type equals the '
-        'model tag list incl. primitive/constructed form; (2) identifier-octet chain of the DER and BER encodings '
+        'model tag list incl. primitive/constructed form; (2) identifier-octet chain of the DER, CER and BER (definite, indefinite, maxChunkSize=1, both) encodings '
         'equals the model chain; (3) decoding with the type succeeds with the right value; (4) for EVERY single-'
         'position perturbation of the decoding type (class -> each other class, number +-1, number -> each other '
         'number of N, IMPLICIT<->EXPLICIT) whose tag sequence differs, decoding must raise PyAsn1Error; '
@@ -124,13 +124,28 @@ def check_case(idx, T, v, R, tier):
     if 'real10' in CM.value_features(T, v):
         return
     ref = M.der(T, v)
-    for encname, fn in (('der', der_enc.encode), ('ber', ber_enc.encode)):
+    from pyasn1.codec.cer import encoder as cer_enc
+    # with maxChunkSize=1 a string of more than one content octet is sent in constructed form: the innermost
+    # identifier octet gains the constructed bit and nothing else changes
+    chunked = False
+    if base[0] in ('OCTS', 'STR'):
+        chunked = len(M.str_octets(base[1], v) if base[0] == 'STR' else v) > 1
+    elif base[0] == 'BITS':
+        chunked = len(v) > 8
+    for encname, fn in (('der', der_enc.encode), ('ber', ber_enc.encode), ('cer', cer_enc.encode),
+                        ('ber-indef', lambda o: ber_enc.encode(o, defMode=False)),
+                        ('ber-chunk1', lambda o: ber_enc.encode(o, maxChunkSize=1)),
+                        ('ber-indef-chunk1', lambda o: ber_enc.encode(o, defMode=False, maxChunkSize=1))):
+        if 'chunk1' in encname and base[0] == 'CHOICE':
+            continue
         try:
-            data = fn(obj)
+            data = fn(B.build(T, v, spec))
         except Exception as e:
             R.violation('encode.error', dict(rec, enc=encname), exc_text(e), 'encodes', pyasn1_site(e), feats, idx)
             continue
         want = ident_chain(ref, max(1, len(tags)))
+        if 'chunk1' in encname and chunked and len(want) == max(1, len(tags)):
+            want = want[:-1] + [bytes([want[-1][0] | 0x20]) + want[-1][1:]]
         try:
             got = ident_chain(data, max(1, len(tags)))
         except IndexError:
